@@ -27,7 +27,9 @@ EXTENDS Integers, Sequences, FiniteSets, TLC
 CONSTANTS Intervals, Waits, Fmts,   \* configurations explored (chosen in Init)
           Names,                    \* metric names offered ("nx" never matches the regex)
           Vals,                     \* values (integers; |v| <= 100)
-          MaxT,                     \* clock and timestamps range over 0..MaxT
+          MaxT,                     \* the clock ranges over 0..MaxT
+          TsSet,                    \* timestamps offered (a subset of 0..MaxT)
+          MaxLag,                   \* a tick value is at most this far behind the clock
           MaxStep,                  \* largest clock advance in one step
           Window,                   \* 0: timestamps 0..MaxT; w > 0: now-wait-w .. now+w
           MaxPoints, MaxTicks,      \* bounds of the exhaustive configs
@@ -151,7 +153,7 @@ Flush(cut) ==
 Tick(t) ==
   /\ nTicks < MaxTicks
   /\ nTicks' = nTicks + 1
-  /\ t >= lastT /\ t <= now
+  /\ t >= lastT /\ t <= now /\ t >= now - MaxLag
   /\ lastT' = t
   /\ lastOp' = [op |-> "tick", t |-> t]
   /\ Flush(t - wait)
@@ -162,7 +164,7 @@ TsHi == IF Window = 0 THEN MaxT ELSE Min2(MaxT, now + Window)
 
 Next ==
   \/ \E n \in 1..MaxT : Advance(n)
-  \/ \E name \in Names, val \in Vals, ts \in 0..MaxT : ts >= TsLo /\ ts <= TsHi /\ Process(name, val, ts)
+  \/ \E name \in Names, val \in Vals, ts \in TsSet : ts >= TsLo /\ ts <= TsHi /\ Process(name, val, ts)
   \/ \E t \in 0..MaxT : Tick(t)
 
 Spec == Init /\ [][Next]_vars
@@ -243,9 +245,9 @@ FVar(c) == <<Len(c) * SumSq(c) - SumV(c) * SumV(c), Len(c) * Len(c)>>
 \* derive: (newest value - oldest value) / (newest ts - oldest ts); no result when the bucket
 \* holds a single timestamp.  Which of several contributions with the same extreme timestamp
 \* counts is not fixed by the statement: every choice is acceptable.
-TsSet(c) == {c[i][2] : i \in 1..Len(c)}
-MinTs(c) == CHOOSE t \in TsSet(c) : \A u \in TsSet(c) : t <= u
-MaxTs(c) == CHOOSE t \in TsSet(c) : \A u \in TsSet(c) : t >= u
+CTs(c) == {c[i][2] : i \in 1..Len(c)}
+MinTs(c) == CHOOSE t \in CTs(c) : \A u \in CTs(c) : t <= u
+MaxTs(c) == CHOOSE t \in CTs(c) : \A u \in CTs(c) : t >= u
 FDeriveOk(c) == MinTs(c) # MaxTs(c)
 FDerive(c) == {<<c[j][1] - c[i][1], MaxTs(c) - MinTs(c)>> :
                   <<i, j>> \in {p \in (1..Len(c)) \X (1..Len(c)) : c[p[1]][2] = MinTs(c) /\ c[p[2]][2] = MaxTs(c)}}
